@@ -70,6 +70,7 @@ func writesOf(save func(d db.DB)) []kvT {
 	p.Replay(r)
 	return r.l
 }
+
 // the writes of a Save method on the contract's storage (as the account patch sees them)
 func storageWrites(addr types.Address, save func(d db.DB)) []kvT {
 	ctx := vm_context.NewGenesisAccountContext(addr)
@@ -99,7 +100,9 @@ func accountEntries(cfg *genesis.GenesisConfig, addr types.Address, block *nom.A
 		for _, p := range cfg.PillarConfig.Pillars {
 			p := p
 			add(storageWrites(addr, func(d db.DB) { p.Save(d) }))
-			add(storageWrites(addr, func(d db.DB) { (&definition.ProducingPillar{Name: p.Name, Producing: &p.BlockProducingAddress}).Save(d) }))
+			add(storageWrites(addr, func(d db.DB) {
+				(&definition.ProducingPillar{Name: p.Name, Producing: &p.BlockProducingAddress}).Save(d)
+			}))
 		}
 		for _, x := range cfg.PillarConfig.Delegations {
 			x := x
@@ -474,6 +477,9 @@ func stateOracle(out *Out, cfg *genesis.GenesisConfig, tag string) {
 
 func runGenesis(rng *rand.Rand, n int, out *Out, _ []string) {
 	Quiet()
+	defer func() {
+		out.Count(fmt.Sprintf("gen:configs-with-funded-spork-contract-and-no-spork-section=%d", sporkFundedNoSection))
+	}()
 	for i := 0; i < n; i++ {
 		cfg := genConfig(rng)
 		if err := checkCase(out, cfg, "consistent"); err != nil {
@@ -529,9 +535,7 @@ func runGenesis(rng *rand.Rand, n int, out *Out, _ []string) {
 			out.Oracle(err == nil && h == b0.hash.String() && d == hex.EncodeToString(sum[:]), "process-changes-genesis", M{"config": i, "err": fmt.Sprint(err)})
 		}
 		// state of an accepted configuration
-		if i%2 == 0 {
-			stateOracle(out, cfg, "consistent")
-		}
+		stateOracle(out, cfg, "consistent")
 		// single-entry perturbations
 		for _, p := range perturbations(cfg) {
 			err := checkCase(out, p.cfg, "perturbed")
